@@ -375,58 +375,58 @@ Section S.
     Lemma rows_upd_nil F rows : rows_upd F [] rows = rows.
     Proof. unfold rows_upd. cbn [lookupQ]. apply map_id. Qed.
 
-    Definition rhs_ok (rows : list xrow) (e : name * Q) : Prop :=
+    Definition rhs_ok (sn : name) (rows : list xrow) (e : name * Q) : Prop :=
       word (fst e) /\
       (exists row, find (fun r => leqb (xw_name r) (fst e)) rows = Some row /\ xw_rhsind row = false /\ xw_sense row <> None) /\
-      (existsb (fun r => leqb (xw_name r) (s2l "RHS")) rows = true -> numlike (fst e) = false).
+      (existsb (fun r => leqb (xw_name r) sn) rows = true -> numlike (fst e) = false).
 
-    Theorem rhs_read : forall es rest a, a_act a = ARhs -> (a_rh a = None \/ a_rh a = Some (Some (s2l "RHS"))) -> NoDup (map fst es) ->
-      (forall e, In e es -> rhs_ok (a_rows a) e) ->
-      exists rh, mrun (map (fun e => rhs_line (fst e) (snd e)) es ++ rest) (mk a)
+    Theorem rhs_read sn : word sn -> forall es rest a, a_act a = ARhs -> (a_rh a = None \/ a_rh a = Some (Some sn)) -> NoDup (map fst es) ->
+      (forall e, In e es -> rhs_ok sn (a_rows a) e) ->
+      exists rh, mrun (map (fun e => set_line sn (fst e) (snd e)) es ++ rest) (mk a)
                  = mrun rest (mk (with_rh (with_rows a (rows_upd (fun v => set_rhs_row (rr v)) es (a_rows a))) rh)).
     Proof.
-      induction es as [|e es IH]; intros rest a ACT RH ND OK.
+      intros WS. induction es as [|e es IH]; intros rest a ACT RH ND OK.
       - exists (a_rh a). cbn [map app]. rewrite rows_upd_nil. destruct a; reflexivity.
       - cbn [map app]. inversion ND as [|? ? NI ND']; subst.
         destruct (OK e (or_introl eq_refl)) as (W & (row & FR & RI & NS) & NL).
-        destruct (rhs_record M (fst e) (snd e) (mk a) row W ACT RH FR RI NS NL) as (t & SL & K & LS).
+        destruct (rhs_record M sn (fst e) (snd e) (mk a) row WS W ACT RH FR RI NS NL) as (t & SL & K & LS).
         rewrite (mrun_data _ _ _ _ _ SL K LS).
-        change (rhs_effect (fst e) (snd e) (mk a)) with (mk (with_rh (with_rows a (upd_row (fst e) (set_rhs_row (rr (snd e))) (a_rows a))) (Some (Some (s2l "RHS"))))).
-        destruct (IH rest (with_rh (with_rows a (upd_row (fst e) (set_rhs_row (rr (snd e))) (a_rows a))) (Some (Some (s2l "RHS")))) ACT (or_intror eq_refl) ND') as (rh & R).
+        change (rhs_effect sn (fst e) (snd e) (mk a)) with (mk (with_rh (with_rows a (upd_row (fst e) (set_rhs_row (rr (snd e))) (a_rows a))) (Some (Some sn)))).
+        destruct (IH rest (with_rh (with_rows a (upd_row (fst e) (set_rhs_row (rr (snd e))) (a_rows a))) (Some (Some sn))) ACT (or_intror eq_refl) ND') as (rh & R).
         + intros e' IN. destruct (OK e' (or_intror IN)) as (W' & (row' & FR' & RI' & NS') & NL'). cbn [with_rh with_rows a_rows].
           assert (NE : leqb (fst e) (fst e') = false).
           { destruct (leqb_spec (fst e) (fst e')) as [E|E]; [|reflexivity]. exfalso. apply NI. rewrite E. now apply in_map. }
           split; [exact W'|]. split.
           * exists row'. rewrite (find_upd_other (fst e) (fst e') (set_rhs_row (rr (snd e))) (a_rows a) (fun _ => eq_refl) NE). auto.
-          * rewrite (exists_upd (fst e) (set_rhs_row (rr (snd e))) (s2l "RHS") (a_rows a) (fun _ => eq_refl)). exact NL'.
+          * rewrite (exists_upd (fst e) (set_rhs_row (rr (snd e))) sn (a_rows a) (fun _ => eq_refl)). exact NL'.
         + exists rh. rewrite R. cbn [with_rh with_rows a_rows a_cols a_seen a_act a_rh a_rg a_bn a_iv].
           rewrite (rows_upd_cons (fun v => set_rhs_row (rr v)) e es (a_rows a) ltac:(intros; reflexivity) NI). reflexivity.
     Qed.
 
-    Definition rng_ok (rows : list xrow) (e : name * Q) : Prop :=
+    Definition rng_ok (sn : name) (rows : list xrow) (e : name * Q) : Prop :=
       word (fst e) /\
       (exists row, find (fun r => leqb (xw_name r) (fst e)) rows = Some row /\ xw_rng row = None /\ xw_sense row <> None) /\
-      (existsb (fun r => leqb (xw_name r) (s2l "RANGE")) rows = true -> numlike (fst e) = false).
+      (existsb (fun r => leqb (xw_name r) sn) rows = true -> numlike (fst e) = false).
 
-    Theorem ranges_read : forall es rest a, a_act a = ARanges -> (a_rg a = None \/ a_rg a = Some (Some (s2l "RANGE"))) -> NoDup (map fst es) ->
-      (forall e, In e es -> rng_ok (a_rows a) e) ->
-      exists rg, mrun (map (fun e => rng_line (fst e) (snd e)) es ++ rest) (mk a)
+    Theorem ranges_read sn : word sn -> forall es rest a, a_act a = ARanges -> (a_rg a = None \/ a_rg a = Some (Some sn)) -> NoDup (map fst es) ->
+      (forall e, In e es -> rng_ok sn (a_rows a) e) ->
+      exists rg, mrun (map (fun e => set_line sn (fst e) (snd e)) es ++ rest) (mk a)
                  = mrun rest (mk (with_rg (with_rows a (rows_upd (fun v => set_rng_row (rr v)) es (a_rows a))) rg)).
     Proof.
-      induction es as [|e es IH]; intros rest a ACT RH ND OK.
+      intros WS. induction es as [|e es IH]; intros rest a ACT RH ND OK.
       - exists (a_rg a). cbn [map app]. rewrite rows_upd_nil. destruct a; reflexivity.
       - cbn [map app]. inversion ND as [|? ? NI ND']; subst.
         destruct (OK e (or_introl eq_refl)) as (W & (row & FR & RI & NS) & NL).
-        destruct (rng_record M (fst e) (snd e) (mk a) row W ACT RH FR RI NS NL) as (t & SL & K & LS).
+        destruct (rng_record M sn (fst e) (snd e) (mk a) row WS W ACT RH FR RI NS NL) as (t & SL & K & LS).
         rewrite (mrun_data _ _ _ _ _ SL K LS).
-        change (rng_effect (fst e) (snd e) (mk a)) with (mk (with_rg (with_rows a (upd_row (fst e) (set_rng_row (rr (snd e))) (a_rows a))) (Some (Some (s2l "RANGE"))))).
-        destruct (IH rest (with_rg (with_rows a (upd_row (fst e) (set_rng_row (rr (snd e))) (a_rows a))) (Some (Some (s2l "RANGE")))) ACT (or_intror eq_refl) ND') as (rg & R).
+        change (rng_effect sn (fst e) (snd e) (mk a)) with (mk (with_rg (with_rows a (upd_row (fst e) (set_rng_row (rr (snd e))) (a_rows a))) (Some (Some sn)))).
+        destruct (IH rest (with_rg (with_rows a (upd_row (fst e) (set_rng_row (rr (snd e))) (a_rows a))) (Some (Some sn))) ACT (or_intror eq_refl) ND') as (rg & R).
         + intros e' IN. destruct (OK e' (or_intror IN)) as (W' & (row' & FR' & RI' & NS') & NL'). cbn [with_rg with_rows a_rows].
           assert (NE : leqb (fst e) (fst e') = false).
           { destruct (leqb_spec (fst e) (fst e')) as [E|E]; [|reflexivity]. exfalso. apply NI. rewrite E. now apply in_map. }
           split; [exact W'|]. split.
           * exists row'. rewrite (find_upd_other (fst e) (fst e') (set_rng_row (rr (snd e))) (a_rows a) (fun _ => eq_refl) NE). auto.
-          * rewrite (exists_upd (fst e) (set_rng_row (rr (snd e))) (s2l "RANGE") (a_rows a) (fun _ => eq_refl)). exact NL'.
+          * rewrite (exists_upd (fst e) (set_rng_row (rr (snd e))) sn (a_rows a) (fun _ => eq_refl)). exact NL'.
         + exists rg. rewrite R. cbn [with_rg with_rows a_rows a_cols a_seen a_act a_rh a_rg a_bn a_iv].
           rewrite (rows_upd_cons (fun v => set_rng_row (rr v)) e es (a_rows a) ltac:(intros; reflexivity) NI). reflexivity.
     Qed.
@@ -445,26 +445,26 @@ Section S.
       destruct (leqb (xc_name c) n); [rewrite NP|]; now rewrite IH.
     Qed.
 
-    Definition bnd_ok (cols : list xcol) (it : mrec * name) : Prop :=
+    Definition bnd_ok (bn : name) (cols : list xcol) (it : mrec * name) : Prop :=
       word (snd it) /\ no_dollar (snd it) /\ existsb (fun c => leqb (xc_name c) (snd it)) cols = true /\
-      (existsb (fun c => leqb (xc_name c) (s2l "BOUND")) cols = true -> numlike (snd it) = false).
+      (existsb (fun c => leqb (xc_name c) bn) cols = true -> numlike (snd it) = false).
 
-    Theorem bounds_read : forall items rest a, a_act a = ABounds -> (a_bn a = None \/ a_bn a = Some (Some (s2l "BOUND"))) ->
-      (forall it, In it items -> bnd_ok (a_cols a) it) ->
-      exists bn, mrun (map mrec_line items ++ rest) (mk a) = mrun rest (mk (with_bn (with_cols a (cols_bnd items (a_cols a)) (a_iv a)) bn)).
+    Theorem bounds_read bn : word bn -> forall items rest a, a_act a = ABounds -> (a_bn a = None \/ a_bn a = Some (Some bn)) ->
+      (forall it, In it items -> bnd_ok bn (a_cols a) it) ->
+      exists bn', mrun (map (mrec_line_gen bn) items ++ rest) (mk a) = mrun rest (mk (with_bn (with_cols a (cols_bnd items (a_cols a)) (a_iv a)) bn')).
     Proof.
-      induction items as [|[r cn] items IH]; intros rest a ACT BN OK.
+      intros WB. induction items as [|[r cn] items IH]; intros rest a ACT BN OK.
       - exists (a_bn a). cbn [map app]. unfold cols_bnd. cbn [fold_left]. rewrite map_id. destruct a; reflexivity.
       - cbn [map app]. destruct (OK (r, cn) (or_introl eq_refl)) as (W & ND & HC & NL). cbn [snd] in *.
-        destruct (bnd_record M r cn (mk a) W ND ACT BN HC NL) as (t & SL & K & LS).
+        destruct (bnd_record M bn r cn (mk a) WB W ND ACT BN HC NL) as (t & SL & K & LS).
         rewrite (mrun_data _ _ _ _ _ SL K LS).
-        change (bnd_effect M r cn (mk a)) with (mk (with_bn (with_cols a (upd_col cn (bnd_col M r) (a_cols a)) (a_iv a)) (Some (Some (s2l "BOUND"))))).
-        destruct (IH rest (with_bn (with_cols a (upd_col cn (bnd_col M r) (a_cols a)) (a_iv a)) (Some (Some (s2l "BOUND")))) ACT (or_intror eq_refl)) as (bn & R).
+        change (bnd_effect M bn r cn (mk a)) with (mk (with_bn (with_cols a (upd_col cn (bnd_col M r) (a_cols a)) (a_iv a)) (Some (Some bn)))).
+        destruct (IH rest (with_bn (with_cols a (upd_col cn (bnd_col M r) (a_cols a)) (a_iv a)) (Some (Some bn))) ACT (or_intror eq_refl)) as (bn' & R).
         + intros it IN. destruct (OK it (or_intror IN)) as (W' & ND' & HC' & NL'). cbn [with_bn with_cols a_cols].
           split; [exact W'|]. split; [exact ND'|]. rewrite !(exists_updc _ _ _ _ (bnd_col_name r)). split; assumption.
         + assert (EC : cols_bnd items (upd_col cn (bnd_col M r) (a_cols a)) = cols_bnd ((r, cn) :: items) (a_cols a)).
           { unfold cols_bnd, upd_col. rewrite map_map. apply map_ext. intros c. cbn [fold_left fst snd]. rewrite (leqb_sym cn (xc_name c)). reflexivity. }
-          exists bn. rewrite R. cbn [with_bn with_cols a_cols]. rewrite EC. reflexivity.
+          exists bn'. rewrite R. cbn [with_bn with_cols a_cols]. rewrite EC. reflexivity.
     Qed.
   End Phases.
 End S.
